@@ -664,13 +664,17 @@ CHILDREN = {
     'TupleBrEnds': '[p], [q]', 'TupleParEnds': '(p), (q)', 'TupleTupEnds': '(p, q), (r, s)', 'TupleBrFirst': '[p], q',
     'TupleParFirstStar': '(p), *q', 'CallPars': '(p)(q)', 'SubPars': '(p)[q]', 'BinParEnds': '(p) + (q)', 'CmpParEnds': '(p) < (q)',
     'IfExpParEnds': '(p) if q else (r)', 'BoolParEnds': '(p) or (q)', 'AttrPars': '(p).q',
+    # multi-byte children (byte / character columns of what the put itself writes: parentheses, delimiters)
+    'TupleMb': 'é, ü', 'Tuple1Mb': 'é,', 'NameMb': 'é', 'CallMb': 'é(ü)', 'AddMb': 'é + ü', 'StrMb': '"é"', 'LambdaMb': 'lambda é: ü',
+    'IfExpMb': 'é if ü else ö', 'OrMb': 'é or ü', 'NamedExprMb': 'é := ü', 'CompareMb': 'é < ü', 'StarredMb': '*é', 'YieldMb': 'yield é',
 }
 PAT_CHILDREN = {'MatchValue': '7', 'MatchSingleton': 'None', 'MatchAsName': 'zz', 'MatchAs': 'p as q', 'MatchOr': '7 | 8',
                 'MatchSequence': 'p, q', 'MatchSequenceBr': '[p, q]', 'MatchMapping': '{1: p}', 'MatchClass': 'C(p)',
                 'MatchValueAttr': 'a.b', 'Wildcard': '_',
                 'MatchSequenceBrEnds': '[p], [q]', 'MatchSequenceParEnds': '(p), (q)', 'MatchSequenceBrFirst': '[p], q',
                 'MatchSequenceBrStar': '[p], *q', 'MatchSequenceTupEnds': '(p, q), (r, s)', 'MatchOrParEnds': '(7) | (8)',
-                'MatchAsPars': '(p) as q', 'MatchOrBrEnds': '[p] | [q]'}
+                'MatchAsPars': '(p) as q', 'MatchOrBrEnds': '[p] | [q]',
+                'MatchSequenceMb': 'é, ü', 'MatchOrMb': '"é" | "ü"', 'MatchAsMb': 'é as ü', 'MatchClassMb': 'É(ü)', 'MatchValueMb': '"é"'}
 
 LAYOUTS = ['bare', 'pars', 'multi_pars', 'multi_cont', 'comment', 'comment_bs']
 
@@ -796,6 +800,31 @@ def _replace_case(arg):
     if d:
         res['fail_c01'] = d
     res['pars_added'] = src.count('(') - psrc.count('(') - csrc.count('(')
+    if not d and via == 'replace' and compile_ok:
+        # second step: the node just put is replaced again by a plain name / value (its recorded extent, incl. the
+        # parentheses or delimiters the first put wrote, decides what is overwritten)
+        try:
+            new_tgt = _nav(root.a, path).f
+            second = '7' if pat else 'zz'
+            exp2 = ast.parse(psrc)
+            _set(exp2, path, _parse_child(second, pat))
+            new_tgt.replace(second)
+            got2 = ast.parse(root.src)
+            if ast.dump(got2) != ast.dump(exp2):
+                res['fail'] = 'second replacement (of the node just put) parses to a different tree: ' + util.first_diff(ast.dump(exp2), ast.dump(got2))
+                res['valid_request'] = True
+                res['src'] = root.src
+            else:
+                d2 = util.tree_equals_parse(root)
+                if d2:
+                    res['fail_c01'] = 'after the second replacement: ' + d2
+                    res['src'] = root.src
+        except SyntaxError as e:
+            res['fail'] = f'result of the second replacement does not parse: {e}'
+            res['valid_request'] = True
+            res['src'] = root.src
+        except Exception as e:
+            res['second_raised'] = type(e).__name__
     return res
 
 
